@@ -10,11 +10,12 @@ try:
     pending = json.load(open(os.path.join(HERE, 'not_applicable.json')))
 except OSError:
     pass
+ready = set(json.load(open(os.path.join(HERE, 'ready.json'))))   # properties whose check the integrator has validated
 checks, na, engines = [], [], {}
 for p in props:
     pid = p['id']
     path = os.path.join(HERE, 'props', pid.lower() + '.py')
-    if not os.path.exists(path) or pid in pending:
+    if not os.path.exists(path) or pid in pending or pid not in ready:
         na.append({'property_id': pid, 'reason': pending.get(pid, 'check not built yet; the design for it is in DESIGN.md section 6')})
         continue
     m = importlib.import_module('props.' + pid.lower())
